@@ -376,7 +376,7 @@ theorem vc_roundtrip (cs : Frame) (o : VcObj) (h : VcWF o) : vcFromDict md5 cs (
 def ParentWF : ParentDesc → Prop
   | .none => True
   | .bare id chromosome => chromosome = true ∨ ∃ n, id = some n ∧ n ≠ []
-  | .chrom sq _ id => sq ≠ [] ∧ id ≠ none
+  | .chrom sq _ id => sq ≠ [] ∧ (chromIdRepaired = true ∨ id ≠ none)
   | .chunk sq _ _ _ _ _ => sq ≠ []
 
 theorem truthy_str_ne {s : Str} (h : s ≠ []) : truthy (.str s) = true := by
@@ -399,11 +399,16 @@ theorem parent_roundtrip (p : ParentDesc) (b : Int × Int) (h : ParentWF p) :
     rfl
   | chrom sq al id =>
     have hs : truthy (.str sq) = true := truthy_str_ne h.1
-    obtain ⟨n, rfl⟩ : ∃ n, id = some n := by cases id with | none => exact absurd rfl h.2 | some n => exact ⟨n, rfl⟩
     have hu : (some (upperAscii "CHROMOSOME".toList) == some "SEQUENCE_CHUNK".toList) = false := by decide
+    have hk : (!chromIdRepaired && !truthyOrPresent (ofOptStr id)) = false := by
+      rcases h.2 with hr | hid
+      · rw [hr]; rfl
+      · cases id with
+        | none => exact absurd rfl hid
+        | some n => simp [ofOptStr, truthyOrPresent]
     simp only [parentToDict, parentFromDict, getOpt_mkDict]
     simp only [lookupK, reduceCtorEq, ↓reduceIte, Option.getD_some, hs, if_true, asStr, bind_ok, pure_ok, typeUpper,
-      ofOptStr, truthyOrPresent, Bool.not_true, asOptStr,
+      hk, asOptStr_of,
       map_ok, show truthy (.str "CHROMOSOME".toList) = true from rfl, hu, Bool.false_eq_true, if_false]
     rfl
   | bare id c =>
